@@ -797,10 +797,14 @@ J_locale_tables(e) ==
       HU == {"year", "month", "week", "day", "hour", "minute", "second"}
       missing == {<<u, c>> \in HU \X used : L.units[u][c] = <<>> \/ L.relative[u]["future"][c] = <<>> \/ L.relative[u]["past"][c] = <<>>}
       oused == {L.ord_cat[n + 1] : n \in 0..400}
-  IN R(<<"tables", name>>,
+  IN IF e.a.scope = "ordinal"                  \* C08: ordinal suffixes (token Do)
+     THEN R(<<"tables", "ordinal", name>>,
+            ArrClause("cldr-ordinal-rule", L.ord_cat, 401, LAMBDA k : CldrOrdinal(name, k - 1))
+            \o V("categories-are-cldr", oused \subseteq Cats, oused))
+     ELSE
+     R(<<"tables", "plural", name>>,
        ArrClause("cldr-plural-rule", L.plural_cat, 1001, LAMBDA k : CldrPlural(name, k - 1))
-       \o ArrClause("cldr-ordinal-rule", L.ord_cat, 401, LAMBDA k : CldrOrdinal(name, k - 1))
-       \o V("categories-are-cldr", used \subseteq Cats /\ oused \subseteq Cats, used)
+       \o V("categories-are-cldr", used \subseteq Cats, used)
        \o V("template-for-every-plural-category", missing = {}, missing)
        \* after / before wrap every difference relative to another value; ago / from_now only the "a few seconds" phrase
        \o V("markers-present", L.after # <<>> /\ L.before # <<>> /\ (L.few_second # <<>> => L.ago # <<>> /\ L.from_now # <<>>),
